@@ -139,11 +139,18 @@ func c17one(r *tree.NNIRearranger, t *tree.Tree, ops []string, collect []int, ho
 			if operr = re.Apply(); operr != nil {
 				return false
 			}
+			// the cycle-safe dump first: on a corrupted structure the recursive traversals of the code
+			// under test (CheckTreePostOrder, Newick) may not terminate
+			d, audit, nw, sane := c17dump(t)
+			if !sane {
+				props.List = append(props.List, L(KV("idx", I(idx)), KV("tree", d), KV("audit", audit), KV("nw", A(nw))))
+				operr = fmt.Errorf("harness: the structure is corrupted after Apply: %s", audit.List[0].Atom)
+				return false
+			}
 			if operr = t.CheckTreePostOrder(); operr != nil {
 				return false
 			}
-			d, audit := ObserveTree(t)
-			props.List = append(props.List, L(KV("idx", I(idx)), KV("tree", d), KV("audit", audit), KV("nw", A(t.Newick()))))
+			props.List = append(props.List, L(KV("idx", I(idx)), KV("tree", d), KV("audit", audit), KV("nw", A(nw))))
 			if hook != nil {
 				hook(idx)
 			}
@@ -164,11 +171,14 @@ func c17one(r *tree.NNIRearranger, t *tree.Tree, ops []string, collect []int, ho
 			} else {
 				e = re.Undo()
 			}
+			d, audit, nw, sane := c17dump(t)
+			if e == nil && !sane {
+				e = fmt.Errorf("harness: the structure is corrupted: %s", audit.List[0].Atom)
+			}
 			if e == nil {
 				e = t.CheckTreePostOrder()
 			}
-			d, audit := ObserveTree(t)
-			st := L(KV("op", A(op)), KV("err", A(errStr(e))), KV("tree", d), KV("audit", audit), KV("nw", A(t.Newick())))
+			st := L(KV("op", A(op)), KV("err", A(errStr(e))), KV("tree", d), KV("audit", audit), KV("nw", A(nw)))
 			steps.List = append(steps.List, st)
 			if first == nil && op == "A" {
 				first = st
@@ -212,9 +222,9 @@ func c17one(r *tree.NNIRearranger, t *tree.Tree, ops []string, collect []int, ho
 		}
 	}
 
-	final, faudit := ObserveTree(t)
+	final, faudit, nwf, _ := c17dump(t)
 	return L(KV("err", A(errStr(operr))), KV("n", I(n)), KV("orig", orig), KV("nw0", A(nw0)),
-		KV("props", props), KV("final", final), KV("audit", faudit), KV("nwf", A(t.Newick())))
+		KV("props", props), KV("final", final), KV("audit", faudit), KV("nwf", A(nwf)))
 }
 
 // c17par: ONE rearranger value shared by several goroutines, each enumerating the neighbourhood
@@ -262,6 +272,16 @@ func c17par(r *tree.NNIRearranger, ts *Sexp) *Sexp {
 		runs.List = append(runs.List, o)
 	}
 	return L(KV("runs", runs))
+}
+
+// c17dump: structural dump + audit (cycle-safe), and the Newick text only when the audit is clean.
+func c17dump(t *tree.Tree) (d, audit *Sexp, nw string, sane bool) {
+	d, audit = ObserveTree(t)
+	sane = len(audit.List) == 0
+	if sane {
+		nw = t.Newick()
+	}
+	return
 }
 
 func c17panicStr(p interface{}) string {
